@@ -70,7 +70,7 @@ Theorem match_segments incoming name supported :
   length (split slash incoming) <> 3%nat -> match_id incoming name supported = NoMatch.
 Proof.
   intros H. unfold match_id.
-  destruct (split slash incoming) as [|a [|b [|c [|d r]]]]; try reflexivity.
+  destruct (split slash incoming) as [|a [|b [|c [|d r]]]]; try (destruct a; reflexivity); try reflexivity.
   exfalso. apply H. reflexivity.
 Qed.
 
@@ -79,26 +79,27 @@ Theorem match_name incoming pre n v name supported :
   split slash incoming = [pre; n; v] -> n <> name -> match_id incoming name supported = NoMatch.
 Proof.
   intros Hs Hne. unfold match_id. rewrite Hs.
-  apply bytes_eqb_neq in Hne. rewrite Hne. reflexivity.
+  apply bytes_eqb_neq in Hne. rewrite Hne. destruct pre; reflexivity.
 Qed.
 
 (* A match is only ever produced through the numeric rule: soundness for *all* strings. *)
 Theorem match_sound incoming name supported :
   match_id incoming name supported = Match ->
-  exists pre v SM Sm Sp PM Pm Pp,
-    split slash incoming = [pre; name; v] /\
+  exists v SM Sm Sp PM Pm Pp,
+    split slash incoming = [[]; name; v] /\
     parse_version supported = VNum SM Sm Sp /\ parse_version v = VNum PM Pm Pp /\
     SM = PM /\ Pm <= Sm.
 Proof.
   unfold match_id. intros H.
-  destruct (split slash incoming) as [|pre [|n [|v [|d r]]]] eqn:Es; try discriminate.
+  destruct (split slash incoming) as [|pre [|n [|v [|d r]]]] eqn:Es; try (destruct pre; discriminate); try discriminate.
+  destruct pre; [|discriminate].
   destruct (bytes_eqb n name) eqn:En; [|discriminate].
   apply bytes_eqb_eq in En. subst n.
   destruct (parse_version supported) as [SM Sm Sp| |] eqn:E1;
   destruct (parse_version v) as [PM Pm Pp| |] eqn:E2; try discriminate.
   destruct ((SM =? PM) && (Pm <=? Sm)) eqn:E; [|discriminate].
   apply andb_true_iff in E as [Ea Eb]. apply N.eqb_eq in Ea. apply N.leb_le in Eb.
-  exists pre, v, SM, Sm, Sp, PM, Pm, Pp. repeat split; try reflexivity; assumption.
+  exists v, SM, Sm, Sp, PM, Pm, Pp. repeat split; try reflexivity; assumption.
 Qed.
 
 (* non-vacuity: the premises of match_rule are met by the protocols the node registers *)
@@ -115,8 +116,8 @@ Lemma match_name_determined incoming n1 v1 n2 v2 :
   match_id incoming n1 v1 = Match -> match_id incoming n2 v2 = Match -> n1 = n2.
 Proof.
   intros H1 H2.
-  apply match_sound in H1 as (pre1 & w1 & ? & ? & ? & ? & ? & ? & Hs1 & _).
-  apply match_sound in H2 as (pre2 & w2 & ? & ? & ? & ? & ? & ? & Hs2 & _).
+  apply match_sound in H1 as (w1 & ? & ? & ? & ? & ? & ? & Hs1 & _).
+  apply match_sound in H2 as (w2 & ? & ? & ? & ? & ? & ? & Hs2 & _).
   rewrite Hs1 in Hs2. congruence.
 Qed.
 
@@ -140,8 +141,8 @@ Proof.
 Qed.
 
 (* ---- the rule on the whole numeric domain ---- *)
-Theorem match_general incoming pre n v name supported SM Sm Sp PM Pm Pp :
-  split slash incoming = [pre; n; v] ->
+Theorem match_general incoming n v name supported SM Sm Sp PM Pm Pp :
+  split slash incoming = [[]; n; v] ->
   parse_version supported = VNum SM Sm Sp -> parse_version v = VNum PM Pm Pp ->
   match_id incoming name supported =
     if bytes_eqb n name && (SM =? PM) && (Pm <=? Sm) then Match else NoMatch.
@@ -202,7 +203,8 @@ Lemma match_id_o_total incoming name supported :
   match_id_o incoming name supported = Ok (match_id incoming name supported).
 Proof.
   unfold match_id_o, match_id_gen, match_id, nv_model, index_o.
-  destruct (split slash incoming) as [|a [|b [|c [|d r]]]]; try reflexivity.
+  destruct (split slash incoming) as [|a [|b [|c [|d r]]]]; try (destruct a; reflexivity); try reflexivity.
+  destruct a; [|reflexivity].
   cbn. destruct (bytes_eqb b name); cbn; [|reflexivity].
   destruct (parse_version supported), (parse_version c); reflexivity.
 Qed.
@@ -212,7 +214,8 @@ Theorem no_crash nv incoming name supported :
 Proof.
   intros Hnv. unfold match_id_gen, index_o.
   destruct (split slash incoming) as [|a [|b [|c [|d r]]]]; try (cbn; discriminate).
-  cbn. destruct (negb (bytes_eqb b name)); [discriminate|].
+  cbn. destruct (negb (is_nil a)); [discriminate|].
+  destruct (negb (bytes_eqb b name)); [discriminate|].
   pose proof (Hnv supported) as H1. pose proof (Hnv c) as H2.
   destruct (nv supported); [|discriminate|contradiction].
   destruct (nv c); [discriminate|discriminate|contradiction].
@@ -431,11 +434,106 @@ Example route_instance :
   route ds (bos "/beta/2.1.0") = None /\ route ds (bos "/gamma/1.0.0") = None.
 Proof. vm_compute. repeat split; reflexivity. Qed.
 
-(* non-vacuity of match_general / parse_version_num beyond the canonical spelling: leading zeros and a
-   non-empty first segment are judged by the same rule *)
+(* non-vacuity of match_general / parse_version_num beyond the canonical spelling: leading zeros are judged by
+   the same rule *)
 Example match_general_instance :
-  match_id (bos "junk/preconf/01.002.3") (bos "preconf") (bos "1.2.0") = Match
+  match_id (bos "/preconf/01.002.3") (bos "preconf") (bos "1.2.0") = Match
   /\ match_id (bos "/preconf/01.003.0") (bos "preconf") (bos "1.02.0") = NoMatch
   /\ parse_version (bos "01.002.3") = VNum 1 2 3
   /\ parse_version (bos "18446744073709551616.0.0") = VErr.
 Proof. vm_compute. repeat split; reflexivity. Qed.
+
+(* ---- the identifier in front of the first '/' (repair 6f7f755) ---- *)
+(* before the repair a non-empty first segment - any bytes, valid UTF-8 or not - was matched *)
+Lemma prefix_v1_refuted :
+  match_id_v1 (255 :: bos "/test/1.0.0") (bos "test") (bos "1.0.0") = Match /\
+  match_id_v1 (bos "x/test/1.0.0") (bos "test") (bos "1.0.0") = Match /\
+  match_id (255 :: bos "/test/1.0.0") (bos "test") (bos "1.0.0") = NoMatch /\
+  match_id (bos "x/test/1.0.0") (bos "test") (bos "1.0.0") = NoMatch.
+Proof. vm_compute. repeat split; reflexivity. Qed.
+
+(* now: whatever stands in front of the first '/', nothing matches *)
+Theorem match_prefix incoming c pre n v name supported :
+  split slash incoming = [c :: pre; n; v] -> match_id incoming name supported = NoMatch.
+Proof. intros H. unfold match_id. rewrite H. reflexivity. Qed.
+
+Lemma split_pieces_nosep sep l : Forall (fun a => ~ In sep a) (split sep l).
+Proof.
+  induction l as [|c r IH]; cbn [split]; [constructor; [intros []|constructor]|].
+  destruct (N.eqb_spec c sep) as [->|Hne].
+  - constructor; [intros []|exact IH].
+  - destruct (split sep r) as [|h t]; [constructor; [|constructor]; intros [H|[]]; congruence|].
+    inversion IH as [|? ? Hh Ht]; subst. constructor; [|exact Ht].
+    intros [H|H]; [congruence|contradiction].
+Qed.
+
+(* every identifier that is not refused outright is exactly "/" ++ name ++ "/" ++ v, v without '/' *)
+Theorem accepted_shape incoming name supported :
+  match_id incoming name supported <> NoMatch ->
+  exists v, incoming = slash :: name ++ slash :: v /\ ~ In slash v /\ ~ In slash name.
+Proof.
+  unfold match_id. intros H.
+  pose proof (split_pieces_nosep slash incoming) as Hp. pose proof (join_split slash incoming) as Hj.
+  destruct (split slash incoming) as [|pre [|n [|v [|d r]]]] eqn:Es;
+    try (exfalso; apply H; destruct pre; reflexivity); try (exfalso; apply H; reflexivity).
+  destruct pre; [|exfalso; apply H; reflexivity].
+  destruct (bytes_eqb n name) eqn:En; [|exfalso; apply H; reflexivity].
+  apply bytes_eqb_eq in En. subst n. exists v. cbn [join app] in Hj.
+  apply Forall_inv_tail in Hp. pose proof (Forall_inv Hp) as Hn. apply Forall_inv_tail in Hp.
+  pose proof (Forall_inv Hp) as Hv. cbv beta in Hn, Hv.
+  split; [symmetry; exact Hj|split; [exact Hv|exact Hn]].
+Qed.
+
+Definition ascii (l : bytes) : Prop := Forall (fun c => c < 128) l.
+
+Lemma numeric_ascii a M : numeric a M -> ascii a.
+Proof.
+  intros (_ & Hd & _). unfold all_digits in Hd. rewrite forallb_forall in Hd.
+  apply Forall_forall. intros c Hc. apply Hd in Hc. unfold is_digit in Hc. lia.
+Qed.
+
+(* a MATCHED identifier is "/" ++ name ++ "/" ++ a.b.c with three digit runs: after the name nothing but ASCII
+   digits and dots *)
+Theorem accepted_id_is_wellformed incoming name supported :
+  match_id incoming name supported = Match ->
+  exists a b c M m p,
+    incoming = slash :: name ++ slash :: a ++ dot :: b ++ dot :: c /\
+    numeric a M /\ numeric b m /\ numeric c p /\ M < two64 /\ m < two64 /\ p < two64 /\
+    ascii (a ++ dot :: b ++ dot :: c).
+Proof.
+  intros H. assert (Hn : match_id incoming name supported <> NoMatch) by (rewrite H; discriminate).
+  apply accepted_shape in Hn as (v & Hi & _ & _).
+  apply match_sound in H as (v' & SM & Sm & Sp & PM & Pm & Pp & Hs & _ & Hv & _).
+  assert (v' = v).
+  { pose proof (join_split slash incoming) as Hj. rewrite Hs in Hj. cbn [join app] in Hj.
+    rewrite Hi in Hj. injection Hj as Hj. apply app_inv_head in Hj. congruence. }
+  subst v'. apply parse_version_num in Hv as (a & b & c & -> & Ha & Hb & Hc & H1 & H2 & H3).
+  exists a, b, c, PM, Pm, Pp. repeat split; try assumption; try apply Ha; try apply Hb; try apply Hc.
+  unfold ascii. apply Forall_app. split; [eapply numeric_ascii; eauto|].
+  constructor; [unfold dot; lia|]. apply Forall_app. split; [eapply numeric_ascii; eauto|].
+  constructor; [unfold dot; lia|]. eapply numeric_ascii; eauto.
+Qed.
+
+(* hence: for every notion of validity of byte strings that is closed under concatenation and holds of ASCII
+   strings - UTF-8 validity is one - a matched identifier is valid whenever the handler's name is *)
+Theorem accepted_id_valid (valid : bytes -> Prop) incoming name supported :
+  (forall x y, valid x -> valid y -> valid (x ++ y)) -> (forall x, ascii x -> valid x) ->
+  valid name -> match_id incoming name supported = Match -> valid incoming.
+Proof.
+  intros Hcat Hasc Hname H.
+  apply accepted_id_is_wellformed in H as (a & b & c & M & m & p & -> & _ & _ & _ & _ & _ & _ & Hv).
+  change (valid ([slash] ++ name ++ [slash] ++ (a ++ dot :: b ++ dot :: c))).
+  apply Hcat; [apply Hasc; constructor; [unfold slash; lia|constructor]|].
+  apply Hcat; [exact Hname|]. apply Hcat; [apply Hasc; constructor; [unfold slash; lia|constructor]|].
+  apply Hasc. exact Hv.
+Qed.
+
+(* non-vacuity: [ascii] itself is such a notion, and the premises are met by the node's own protocols *)
+Example accepted_id_valid_instance : ascii (bos "/preconf/1.0.0").
+Proof.
+  apply (accepted_id_valid ascii _ (bos "preconf") (bos "1.2.0")).
+  - intros x y Hx Hy. apply Forall_app. split; assumption.
+  - intros x Hx. exact Hx.
+  - unfold ascii. repeat constructor.
+  - vm_compute. reflexivity.
+Qed.
